@@ -55,6 +55,7 @@ type NodeConfig struct {
 	ElectionTick    int      `json:"election_tick"`
 	KeepBackup      int      `json:"keep_backup"`
 	WALSegmentBytes int64    `json:"wal_segment_bytes"`
+	OptimizedFsync  bool     `json:"optimized_fsync"`
 	NSBase          string   `json:"ns_base"`
 	GroupID         uint64   `json:"group_id"`
 	SnapCount       int      `json:"snap_count"`
@@ -190,6 +191,7 @@ func vnodeMain(args []string) int {
 	nsConf.SnapCount = cfg.SnapCount
 	nsConf.SnapCatchup = cfg.SnapCatchup
 	nsConf.Replicator = cfg.Replicator
+	nsConf.OptimizedFsync = cfg.OptimizedFsync
 	nsConf.RaftGroupConf.GroupID = cfg.GroupID
 	nsConf.RaftGroupConf.SeedNodes = seeds
 	nsConf.ExpirationPolicy = common.WaitCompactExpirationPolicy
